@@ -67,7 +67,49 @@ def build():
 
 
 def drive_bin(profile):
+    if profile == "asan":
+        return os.path.join(HARNESS, "target-asan", "x86_64-unknown-linux-gnu", "release", "drive")
     return os.path.join(HARNESS, "target", profile, "drive")
+
+
+def build_asan():
+    """AddressSanitizer build of harness + griddle + hashbrown (nightly; works offline here)."""
+    t0 = time.time()
+    env = dict(ENV, RUSTFLAGS="-Zsanitizer=address --cfg griddle_verif --check-cfg cfg(griddle_verif)")
+    r = subprocess.run(["cargo", "+nightly", "build", "--release", "--offline", "--target", "x86_64-unknown-linux-gnu",
+                        "--target-dir", "target-asan"], cwd=HARNESS, env=env, stdout=subprocess.PIPE, stderr=subprocess.STDOUT, text=True)
+    if r.returncode != 0:
+        log("ASan build failed (nightly toolchain missing?): " + r.stdout[-500:])
+        return False
+    log("ASan harness built in %.1fs" % (time.time() - t0))
+    return True
+
+
+def run_asan(entries, limit):
+    """Re-runs the recording commands of `entries` with the ASan binary. Returns list of findings."""
+    out = []
+    jobs = []
+    for t in entries[:limit]:
+        cmd = t["cmd"]
+        if cmd.startswith("(") or " random " not in cmd and " faults " not in cmd and " tomb " not in cmd and " run " not in cmd and " meta " not in cmd:
+            continue
+        cmd = cmd.replace(drive_bin("debug"), drive_bin("asan")).replace(drive_bin("release"), drive_bin("asan"))
+        if cmd.startswith("sh -c"):
+            continue
+        dest = t["path"].replace(".ndjson", ".asan.ndjson")
+        parts = cmd.split(" ")
+        if "--out" in parts:
+            parts[parts.index("--out") + 1] = dest
+        jobs.append((t, parts, dest))
+    env = dict(os.environ, ASAN_OPTIONS="detect_leaks=0:exitcode=99:abort_on_error=0")
+    with cf.ThreadPoolExecutor(max_workers=8) as ex:
+        futs = [(t, parts, dest, ex.submit(subprocess.run, parts, env=env, stdout=subprocess.PIPE, stderr=subprocess.STDOUT, text=True))
+                for t, parts, dest in jobs]
+        for t, parts, dest, f in futs:
+            r = f.result()
+            bad = r.returncode != 0 or "AddressSanitizer" in r.stdout
+            out.append(dict(trace=dest, ok=not bad, rc=r.returncode, report=r.stdout[-1500:] if bad else "", elem=t["elem"], suite=t["suite"]))
+    return out
 
 
 # ---------------------------------------------------------------------------------------------
@@ -320,6 +362,19 @@ def run_check(pid, tier, seed, replay):
                                        detail=t["log"][-400:]))
             else:
                 notes.append("driver %s in suite %s (judged by %s)" % (t["status"], t["suite"], prop))
+    # AddressSanitizer runtime (C05): the same recordings, executed by an ASan build
+    asan_runs = []
+    if plan.get("asan") and not replay:
+        if build_asan():
+            ents = [t for t in traces if t["suite"] in plan["asan"]]
+            asan_runs = run_asan(ents, 12 if tier == "quick" else 200)
+            for a in asan_runs:
+                if not a["ok"]:
+                    violations.append(dict(trace=a["trace"], line=None, monitor="asan_report", op="?", elem=a["elem"],
+                                           detail=a["report"][-600:]))
+            notes.append("ASan: %d recordings re-executed, %d reports" % (len(asan_runs), sum(1 for a in asan_runs if not a["ok"])))
+        else:
+            notes.append("ASan build unavailable: sanitizer runtime skipped")
     # validate (parallel)
     jobs = []
     with cf.ThreadPoolExecutor(max_workers=8) as ex:
